@@ -600,12 +600,23 @@ fn conversions(rep: &mut Report, tier: Tier) {
         if got != Ok(Some(6)) {
             t.violation("", format!("TryFromJsonObject::try_from_json_object: error offset {got:?}, expected Some(6)"), case(text));
         }
-        let text2 = "[1, {\"a\": \"x\", \"b\": 7}]";
-        let (v2, m2) = Value::parse_str(text2).unwrap();
-        let obj2 = v2.as_array().unwrap()[1].as_object().unwrap();
-        let got = explore::guard(|| Box::<ObjLeaf>::try_from_json_object_at(obj2, &m2, 2).err().map(|e| e.offset));
-        if got != Ok(Some(8)) {
-            t.violation("", format!("Box<_>::try_from_json_object_at(…, 2): error offset {got:?}, expected Some(8)"), case(text2));
+        // (several placements: a forwarder that drops the offset can land on the right index
+        // by coincidence in one document, not in all of them)
+        for k in 0..=4usize {
+            let text2 = format!("[{}{{\"a\": \"x\", \"b\": 7}}]", "[0, 0], ".repeat(k));
+            let (v2, m2) = Value::parse_str(&text2).unwrap();
+            let obj2 = v2.as_array().unwrap()[k].as_object().unwrap();
+            let at = 1 + 3 * k;
+            let want = at + 6;
+            t.evals += 2;
+            let got = explore::guard(|| Box::<ObjLeaf>::try_from_json_object_at(obj2, &m2, at).err().map(|e| e.offset));
+            if got != Ok(Some(want)) {
+                t.violation("", format!("Box<_>::try_from_json_object_at(…, {at}): error offset {got:?}, expected Some({want})"), case(&text2));
+            }
+            let got = explore::guard(|| Box::<Box<ObjLeaf>>::try_from_json_object_at(obj2, &m2, at).err().map(|e| e.offset));
+            if got != Ok(Some(want)) {
+                t.violation("", format!("Box<Box<_>>::try_from_json_object_at(…, {at}): error offset {got:?}, expected Some({want})"), case(&text2));
+            }
         }
     }
     // scalar conversions report the offset they were given
